@@ -115,8 +115,9 @@ PROPERTIES = {
                  "delays producing equal timestamps, add_event and add_event_in) x start times (0, 1 ns, bucket / year multiples, 10 s, 1e6 s where the scan "
                  "from zero stays bounded) x calendar-queue parameters (and the default ones); every handler logs (id, scheduled, SimTime::now()), attempts "
                  "add_event in the past under catch_unwind on marked events, the clock writer is observed through hook H4 and the event set is walked "
-                 "through H6. Oracle: now == scheduled, non-decreasing, each event exactly once, every add at/after now accepted, every add before now / "
-                 "before the start time rejected and never dispatched, end time = last event. Non-trivial = program with >= 3 events that ran clean; "
+                 "through H6; every third program is additionally driven in random n-event / until-time steps, and after every step add_event(sim_time() - 1 ns) "
+                 "is attempted on the paused runtime. Oracle: now == scheduled, non-decreasing, each event exactly once, every add at/after now accepted, every "
+                 "add before now / before the start time / before the time reported while paused rejected and never dispatched, end time = last event. Non-trivial = program with >= 3 events that ran clean; "
                  "distinct = hash of the program."),
         "assumptions": ["the handlers of the monitor application are the observation boundary; H4 observes every SimTime::set_now",
                         "start times are restricted to those the calendar queue can reach by scanning <= 1e6 buckets from zero (a larger start time "
@@ -128,7 +129,8 @@ PROPERTIES = {
         ],
         "floor": {
             "quick": {"events_handled": 1000000, "past_adds_rejected_in_handlers": 20000, "programs_with_nonzero_start": 50000,
-                      "pre_run_adds_before_start_rejected": 50000, "clock_writes_observed": 1000000, "event_set_walks": 100000},
+                      "pre_run_adds_before_start_rejected": 50000, "clock_writes_observed": 1000000, "event_set_walks": 100000,
+                      "stepped_runs": 20000, "paused_adds_below_reported_time_rejected": 50000},
             "thorough": {"events_handled": 50000000, "past_adds_rejected_in_handlers": 1000000, "programs_with_nonzero_start": 1000000,
                          "pre_run_adds_before_start_rejected": 1000000, "clock_writes_observed": 50000000, "heap_events_handled": 1000000},
         },
@@ -339,7 +341,7 @@ PROPERTIES = {
         "level": "exploration",
         "rule": ("1..2 device-under-test modules with stacks of 0..4 elements from {pass, tag (sets a bit in the message), consume-if(id % m == r), chatty (sends a message "
                  "from every hook)}, supplied globally through set_stack, per module through Module::stack, or both; 3..42 self messages at distinct instants, a task "
-                 "with timer wake-ups, 1..2 start stages, optionally shutdown-and-restart (restart stages), tear-down; handlers optionally send two messages. All hooks, "
+                 "with timer wake-ups, 1..2 start stages, optionally shutdown-and-restart (restart stages), tear-down (a sixth of the modules reports an error from at_sim_end, which run() must return); handlers optionally send two messages. All hooks, "
                  "handlers, task wake-ups and the receptions of the messages sent from hooks log into one sequence. Oracle = bracket grammar per module event: "
                  "event_start exactly once per element in stack order; incoming only after that element's start, in order, element i+1 sees exactly the tags "
                  "element i returned, stops at the first consumer; handler iff nobody consumed, with the final tags; event_end once per element in reverse order "
@@ -354,7 +356,7 @@ PROPERTIES = {
         "floor": {
             "quick": {"brackets_parsed": 800000, "messages_consumed_by_an_element": 100000, "timer_wakeup_brackets": 20000, "restart_stage_brackets": 5000,
                       "teardown_brackets": 20000, "messages_sent_from_hooks_received": 500000, "cases_with_global_and_module_stack": 5000,
-                      "cases_with_stack_of_4": 2000, "cases_with_stack_of_0": 300},
+                      "cases_with_stack_of_4": 2000, "cases_with_stack_of_0": 300, "teardowns_reporting_an_error": 2000},
             "thorough": {"brackets_parsed": 16000000, "messages_consumed_by_an_element": 2000000, "timer_wakeup_brackets": 400000,
                          "restart_stage_brackets": 100000, "cases_with_global_and_module_stack": 100000},
         },
@@ -392,7 +394,7 @@ PROPERTIES = {
         "rule": ("generated simulations: 1..6 modules (top-level modules form a gate ring, possibly a self loop; others are children), ring channels none / latency "
                  "only / slow (messages pile up in the channel queue) / fast, per module: self messages, a start burst on the ring, tasks (sleeper loop, receiver "
                  "on a never-fed channel, pending, finite, spawn_local sleeper), forwarding with a hop budget, messages held in module state, shutdown / "
-                 "shutdown-and-restart / panic at the k-th message, messages sent from at_sim_end, processing element, channel probe; identity tokens in all of "
+                 "shutdown-and-restart / panic at the k-th message, messages sent from at_sim_end, processing element, channel probe, in a fifth of the models a closed ring of 3..6 transit gates (never used for traffic) with a channel that carries a probe; identity tokens in all of "
                  "these. Stop points: builder dropped, runtime dropped before run, stepped n events and abandoned, stepped and finished, event limit (EVERY "
                  "prefix 0..24 for a share of the small models), time limit, completion, error exit. Oracle: after dropping whatever was returned every token "
                  "was dropped exactly once (none alive, none twice), the statics are clean, and a fixed follow-up simulation reproduces the trace it has in a "
@@ -409,7 +411,7 @@ PROPERTIES = {
         ],
         "floor": {
             "quick": {"tokens_created": 500000, "stops_event_limit": 20000, "stops_time_limit": 1000, "stops_completed": 2000, "stops_error_exit": 2000,
-                      "stops_builder_dropped": 500, "stops_runtime_dropped_before_run": 500, "stops_stepped_and_abandoned": 500,
+                      "stops_builder_dropped": 500, "stops_runtime_dropped_before_run": 500, "stops_stepped_and_abandoned": 500, "models_with_closed_gate_ring": 5000,
                       "remaining_events_returned": 100000, "models_with_channel_backlog": 5000, "models_with_shutdown": 8000,
                       "models_sending_at_teardown": 8000, "models_with_every_limit_prefix": 800},
             "thorough": {"tokens_created": 10000000, "stops_event_limit": 400000, "remaining_events_returned": 2000000, "models_with_channel_backlog": 100000,
@@ -441,9 +443,9 @@ PROPERTIES = {
     },
     "C16": {
         "level": "exploration",
-        "rule": ("random operation sequences (3..62 operations) over a pool of messages whose bodies are drawn from 29 types: u8 u32 i32 f32 [u8;4] u64 u128 bool char "
+        "rule": ("random operation sequences (3..62 operations) over a pool of messages whose bodies are drawn from 30 types: u8 u32 i32 f32 [u8;4] u64 u128 bool char "
                  "String Vec<u8> Option Result Box VecDeque BTreeMap () two layout twins, derived named / tuple / unit structs, a derived enum with unit / tuple / "
-                 "named / nested variants, generic derived types, two tracked clonable types, a tracked non-clonable type and a non-debuggable type. Operations: "
+                 "named / nested variants, generic derived types, two tracked clonable types, a tracked non-clonable type, a zero-sized type with a counted destructor and a non-debuggable type. Operations: "
                  "create (set_content* / set_body / with_body), replace content (same or other type), try_clone, probe with a foreign type (can_cast, try_content, "
                  "try_content_mut; layout twins preferred), failing try_cast (message must come back intact), try_cast to the own type, try_content_mut, format, "
                  "drop. Shadow model (type, value, length, id) checked after every operation; tracked values dropped exactly once at the end; length() == 64 + a "
@@ -494,7 +496,7 @@ PROPERTIES = {
                  "rendered to YAML and goes through serde_yml -> Def -> transform -> Ndl::build into a Sim with a recording registry. Oracle = independent "
                  "reference elaborator: module set path -> software symbol (as seen by the registry), gate clusters per module, set of direct gate connections "
                  "with link latency / bitrate (read through both connection slots of every gate) must be equal, no more, no fewer. Then three single-point "
-                 "mutations per document out of 23 operators (dangling type / inherit / entry / link, unknown gate / submodule, index out of bounds, zero-sized "
+                 "mutations per document out of 24 operators (dangling type / inherit / entry / link, unknown gate / submodule, index out of bounds, index 0 into a non-cluster, zero-sized "
                  "gate or submodule cluster, unequal peers, inheritance and submodule cycles, malformed type clauses, generic without arguments, wrong arity, "
                  "non-conforming argument, generic module or binding as argument, binding with arguments, deleted line, inserted garbage): never a panic; "
                  "structural mutants must be rejected with a non-empty message and a kind other than Other. FromStr / Display round trips of FieldDef, TypClause, "
